@@ -195,7 +195,7 @@ func c10RunGroup(group []c10Scenario) []c10Result {
 		return mcp.NewTextResult("done-" + nonce), nil
 	})
 	ts := httptest.NewServer(srv.Handler())
-	defer func() { ts.CloseClientConnections(); ts.Close() }()
+	defer func() { closeClientConns(ts); closeTS(ts) }()
 	url := ts.URL + "/mcp"
 	client, err := mcp.NewClient(url, mcp.Implementation{Name: "verif", Version: "0"}, mcp.WithClientLogger(silentLogger{}), mcp.WithClientGetSSEEnabled(false))
 	if err != nil {
